@@ -1,6 +1,7 @@
 #!/bin/bash
 # Development aid (not a registered check): false-alarm test. Applies every behaviour-preserving change under
 # benign/<name>/patch.diff to a scratch worktree of /repo and runs all 19 quick checks against it (VERIF_REPO).
+# (by default only the checks listed in benign/<name>/checks: those whose property is anchored in the touched files).
 # Every check must exit 0. Meant for `vp run -- harness/benignall.sh [name-glob] [ids]`.
 set -u
 here="$(cd "$(dirname "$0")/.." && pwd)"
@@ -15,7 +16,8 @@ for d in "$here"/benign/$glob/; do
   [ -f "$d/patch.diff" ] || continue
   git -C "$wt" apply "$d/patch.diff" 2>/dev/null || { echo "$name patch-does-not-apply"; continue; }
   bad=""
-  for pid in $ids; do
+  these="$ids"; [ -z "${2:-}" ] && [ -f "$d/checks" ] && these="$(cat "$d/checks")"
+  for pid in $these; do
     ( cd "$here" && VERIF_REPO="$wt" ./check "$pid" --tier quick ) > "$here/work/benignall/$name.$pid.log" 2>&1
     rc=$?
     [ $rc -ne 0 ] && bad="$bad $pid(rc=$rc)"
